@@ -225,6 +225,11 @@ var edgeCorpus = []string{
 	`(defn r0 [] (return)) (+ 5 (r0))`, `(defn sq0 [] (set %y 10)) (+ 1 (sq0))`, `(def ar0 [4 5 6]) (defn ai0 [] (set (arrayidx ar0 [1]) 99)) (+ 1 (ai0))`,
 	`(for [(def k 0) (< k 3) (set k (+ k 1))] (package "pkx" (def A (cond (== k 1) (break) 7))))`,
 	`([] int64)`, `(def a5 5) (a5)`, `((fn [] 3))`, `(int64 2.7)`, `(def n9 (int 9.99)) n9`, `(defn whole [x] (int64 x)) (whole 3.5) (whole 1.5)`, `(let [f 6.5] (uint8 f))`,
+	`(func tf1 [a:int64 b:int64] [r:int64] (cond (== a 0) b (tf1 a:(- a 1) b:(+ b 1)))) (tf1 a:3 b:0)`,
+	`(func tf2 [a:int64 b:int64] [r:int64] (cond (== a 0) b (tf2 (- a 1) (+ b 1)))) (tf2 a:3 b:0) (tf2 3 0)`,
+	`(func tf3 [a:int64 b:int64] [r:int64] (cond (== a 0) b (tf3 a:(- a 1) b:(+ b 1)))) (func tf3 [a:int64 b:int64] [r:int64] (cond (== a 0) b (tf3 a:(- a 1) b:(+ b 1)))) (tf3 a:3 b:0) (tf3 a:2 b:5)`,
+	`(func tf4 [a:int64 b:int64] [r:int64] (let [c 1] (cond (== a 0) b (tf4 b:(+ b c) a:(- a 1))))) (tf4 a:3 b:0)`,
+	`(func tf5 [a:int64] [r:int64] (cond (== a 0) 9 (begin (tf5 a:(- a 1))))) (tf5 a:2) (tf5 2)`,
 	`(hash a:(begin) b:2)`, `[1 (begin) 2]`, `[(newScope)]`, `(len [(begin)])`,
 }
 
@@ -334,6 +339,9 @@ func main() {
 	s.symbolKinds()
 	s.branchPaths(args.Tier == "thorough")
 	s.errorThenSuccess(args.Tier == "thorough")
+	// ---- (xi) the self call in every position; (xii) source / include / Go API entry points ----
+	s.tailMatrix(args.Tier == "thorough")
+	s.apiCalls()
 
 	// ---- (ii)+(iii) generated programs in long histories ----
 	nhist, perHist := 12, 60
